@@ -241,6 +241,16 @@ pub fn base_runner(cfg: &spec::Cfg) -> runner::Basic<TW> {
     if cfg.b_ff {
         r = r.fail_fast();
     }
+    if cfg.resume {
+        // a user-supplied retry options function: the default one, except for "resumed" scenarios
+        r = r.retry_options(|f, rule, sc, cli| match spec::resumed_tag(&sc.tags) {
+            Some((current, left)) => Some(runner::basic::RetryOptions {
+                retries: cucumber::event::Retries { current, left },
+                after: None,
+            }),
+            None => runner::basic::RetryOptions::parse_from_tags(f, rule, sc, cli),
+        });
+    }
     // compiled once per process (regex compilation dominates under Miri)
     thread_local! {
         static RX: [Regex; 3] = [
